@@ -790,6 +790,14 @@ def _empty_list():
     return []
 
 
+@_formats("Comment? -> Comment")
+@_formats("doc -> Documentation")
+def _comment_or_documentation(text):
+    # The token runs to the end of the line; trailing blanks must not take part
+    # in column alignment (they are stripped from the final line anyway).
+    return text.rstrip()
+
+
 @_formats("abbreviation? -> ")
 @_formats("additive-expression-right* -> ")
 @_formats("and-expression-right* -> ")
@@ -840,7 +848,6 @@ def _empty_string():
 @_formats('builtin-word -> "$next"')
 @_formats('builtin-word -> "$static_size_in_bits"')
 @_formats("choice-expression -> logical-expression")
-@_formats("Comment? -> Comment")
 @_formats("comparison-expression -> additive-expression")
 @_formats("constant-name -> constant-word")
 @_formats("constant-reference -> constant-reference-tail")
@@ -849,7 +856,6 @@ def _empty_string():
 @_formats('"$default"? -> "$default"')
 @_formats("delimited-argument-list? -> delimited-argument-list")
 @_formats("doc? -> doc")
-@_formats("doc -> Documentation")
 @_formats("enum-value-body? -> enum-value-body")
 @_formats('equality-operator -> "=="')
 @_formats("equality-or-greater-expression-right -> equality-expression-right")
